@@ -95,6 +95,10 @@ def run_child(plan, workdir, keeplog=False, timeout=90, gomaxprocs="1"):
         return res
 
 
+def safe_name(rule):
+    return "".join(c if (c.isalnum() or c in "_.-") else "_" for c in rule)[:80]
+
+
 def sig_of(v):
     return v["property"] + "/" + v["rule"]
 
@@ -375,14 +379,14 @@ def cmd_check(prop, tier, seed, runs_override=None):
     for rule, (v, r) in sorted(new.items()):
         plan = r.get("plan")
         budget = 60 if tier == "quick" else 240
-        mini, ok, tries = shrink(plan, prop, rule, budget, os.path.join(runner.work, "shrink-" + rule))
+        mini, ok, tries = shrink(plan, prop, rule, budget, os.path.join(runner.work, "shrink-" + safe_name(rule)))
         mini["expect"] = prop + "/" + rule
         # final confirmation in fresh processes. A replay normally reproduces at the first attempt; a
         # violation that hinges on randomness inside the repo (Go's select picks at random among ready
         # cases) reproduces only in a fraction of the attempts, which is recorded in the replay file.
         attempts, hits, res2 = 0, 0, None
         for attempts in range(1, 9):
-            rr = run_child(dict(mini, replay=True), os.path.join(runner.work, "confirm-" + rule), keeplog=True)
+            rr = run_child(dict(mini, replay=True), os.path.join(runner.work, "confirm-" + safe_name(rule)), keeplog=True)
             if any(x["rule"] == rule for x in relevant_violations(rr, prop)):
                 hits += 1
                 res2 = rr
@@ -392,7 +396,7 @@ def cmd_check(prop, tier, seed, runs_override=None):
             res2 = rr
         confirmed = hits > 0
         mini["replay_attempts"] = 1 if attempts == 1 else 12
-        path = os.path.join(VERIF, "replays", "%s-%s-%d.json" % (prop, rule, (plan or {}).get("seed", 0)))
+        path = os.path.join(VERIF, "replays", "%s-%s-%d.json" % (prop, safe_name(rule), (plan or {}).get("seed", 0)))
         with open(path, "w") as f:
             json.dump({"plan": mini, "violation": v, "confirmed_in_fresh_process": confirmed, "reproduced": "%d/%d" % (hits, attempts), "shrink_runs": tries,
                        "log_tail": (res2.get("log") or [])[-80:], "detail_after_shrink": [x for x in relevant_violations(res2, prop)]}, f, indent=1)
@@ -554,7 +558,7 @@ def main():
         for v in relevant_violations(res, vp):
             mini, ok, tries = shrink(res["plan"], vp, v["rule"], 120, os.path.join(wd, "shrink"))
             mini["expect"] = vp + "/" + v["rule"]
-            path = os.path.join(VERIF, "replays", "one-%s-%s-%d.json" % (vp, v["rule"], a.one))
+            path = os.path.join(VERIF, "replays", "one-%s-%s-%d.json" % (vp, safe_name(v["rule"]), a.one))
             os.makedirs(os.path.dirname(path), exist_ok=True)
             json.dump({"plan": mini, "violation": v}, open(path, "w"), indent=1)
             log("shrunk (%d runs) -> %s" % (tries, path))
